@@ -32,6 +32,10 @@ checks = {
  "C20": dict(cat="model_checking", ref="DESIGN.md 4 C20",
    text="TLC explores Vars.tla - SETVAR / GETVAR as a state machine with one action per call, rows in source order, items left to right, queries of a history sharing the map - and checks in every reachable state that each GETVAR returned the latest preceding SETVAR of its key (else the initial map's value, else NULL), that the map holds the last write per key and that SETVAR adds no column; every terminal behaviour is replayed (rows and the caller's map after every query), and seeded longer histories with logging wrappers around the real functions are validated call by call against VarsTrace.",
    tech="TLA+ specification (Vars.tla) model-checked with TLC; exported behaviours replayed with a shared vars map; call-level traces of the real SETVAR/GETVAR validated with TLC (VarsTrace)"),
+ "C09": dict(cat="model_checking", ref="DESIGN.md 4 C09",
+   text="TLC evaluates Selector.tla (keys mapping over arrays, index lists consuming successive dimensions with each / ranges, flattening by dims-1 unless keep=>, pipes with conversions, quoted keys, :: continuation, top level functions, NULL propagation, errors for wrong shapes and out-of-range indices or bounds) on every (document, selector) of the bounded domain and checks its laws (a::b = b after a, [each] identity, keep=> vs flattened, NULL stays NULL, out of range is an error); every case is replayed through ExecReader on a fresh copy (value / error equality, no panic, document deep-equal afterwards, object arrays also as a FROM path) together with byte-level mutations of the selector text (no panic, document untouched).",
+   tech="TLA+ specification (Selector.tla) model-checked with TLC; every exported (document, selector) replayed through genql.ExecReader; byte-level mutations for totality",
+   note="Exhaustive over the stated document x selector domain; 'arbitrary byte strings' are sampled as mutations of the enumerated selectors (only no-panic / no-mutation is demanded there). Results the documented grammar leaves open (%v text of containers under |string, mix=> of objects) are marked unspecified in the specification and only checked for totality."),
 }
 not_applicable = []
 m = {
